@@ -639,9 +639,11 @@ def fnmatch_decisions(h):
     # apply_escapes: the loop, the condition on chars[i], what the body sets
     body = h.item_body(af, r"fn\s+apply_escapes\b[^{]*", "fn apply_escapes in attr_fnmatch.rs")
     flat = re.sub(r"\s+", "", body)
-    m = re.fullmatch(r"forjin1\.\.chars\.len\(\)\{leti=j-1;if(.*?)\{(.*)\}\}", flat)
+    m = re.fullmatch(r"foriin0\.\.chars\.len\(\)\{if(.*?)\{letnext=(chars\[i\+1\.\.\]\.iter\(\)\.position\(\|c\|!c\.is_quoting\));"
+                     r"ifletSome\(offset\)=next\{(.*)\}\}\}", flat)
     if not m:
-        h.fail("shape not understood in apply_escapes: not `for j in 1..chars.len() { let i = j - 1; if … { … } }`")
+        h.fail("shape not understood in apply_escapes: not `for i in 0..chars.len() { if … { let next = "
+               "chars[i + 1..].iter().position(|c| !c.is_quoting); if let Some(offset) = next { … } } }`")
     cond = re.sub(r"chars\[i\]\.value=='\\\\'|'\\\\'==chars\[i\]\.value", " IS_BS ", m.group(1))
     cond = cond.replace("chars[i].is_quoting", " IS_QUOTING ").replace("chars[i].is_quoted", " IS_QUOTED ")
     ctoks = _toks(cond)
@@ -652,9 +654,10 @@ def fnmatch_decisions(h):
                 var = lambda t: {"IS_BS": bs, "IS_QUOTING": quoting, "IS_QUOTED": quoted}.get(t)
                 if _cond(h, ctoks, var, "apply_escapes"):
                     when.append((bs, quoting, quoted))
-    effects = sorted(x for x in m.group(2).split(";") if x)
+    escape_target = m.group(2)
+    effects = sorted(x for x in m.group(3).split(";") if x)
     for e in effects:
-        if not re.fullmatch(r"chars\[[ij]\]\.is_(quoting|quoted)=true", e):
+        if not re.fullmatch(r"chars\[(i|i\+1\+offset)\]\.is_(quoting|quoted)=true", e):
             h.fail(f"shape not understood in apply_escapes: statement {e!r}")
 
     # trim_value: which of find / rfind, by the flags of the pattern's configuration
@@ -768,10 +771,12 @@ def fnmatch_decisions(h):
         "def patternCharTable : List ((Bool × Bool) × String) := ["
         + ", ".join(f'(({_bool(a)}, {_bool(b)}), "{r}")' for a, b, r in rows) + "]\n\n"
         "/-- attr_fnmatch.rs `apply_escapes`: the combinations (value is a backslash, is_quoting, is_quoted) of `chars[i]`\n"
-        "    for which the body runs (loop: `for j in 1..chars.len()`, `i = j - 1`) -/\n"
+        "    for which the body runs (loop: `for i in 0..chars.len()`) -/\n"
         "def escapeWhen : List (Bool × Bool × Bool) := ["
         + ", ".join(f"({_bool(a)}, {_bool(b)}, {_bool(c)})" for a, b, c in when) + "]\n\n"
-        "/-- … and what the body sets, sorted -/\n"
+        "/-- … what the escaped character is (`next`) … -/\n"
+        f"def escapeTarget : String := {h.lean_str(escape_target)}\n\n"
+        "/-- … and what the body sets when there is one (`if let Some(offset) = next`), sorted -/\n"
         f"def escapeEffects : List String := {_lean_strs(effects)}\n\n"
         "/-- trim.rs `trim_value`, evaluated on every combination of the modelled flags: flags on ↦ `find` / `rfind` -/\n"
         "def trimValueSearch : List (List String × String) := [\n"
